@@ -1,6 +1,7 @@
 package main
 
 import (
+	"errors"
 	"io"
 	"strings"
 	"text/template"
@@ -11,10 +12,53 @@ import (
 	"verif/common"
 )
 
-type swV struct{ s *generator.SnippetWriter }
+type swV struct {
+	s *generator.SnippetWriter
+	c *generator.Context
+}
 
 func (s swV) Do(format string, args interface{}) { s.s.Do(format, args) }
 func (s swV) Err() error                         { return s.s.Error() }
+
+func (s swV) Renew(w io.Writer, left, right string, names []string) common.SWAPI {
+	for k := range s.c.Namers {
+		delete(s.c.Namers, k)
+	}
+	for k, v := range mkNamers(names) {
+		s.c.Namers[k] = v
+	}
+	return swV{generator.NewSnippetWriter(w, s.c, left, right), s.c}
+}
+
+type bodyGen struct {
+	generator.DefaultGen
+	failAt string
+	n      int
+}
+
+func (g *bodyGen) Init(c *generator.Context, w io.Writer) error {
+	io.WriteString(w, "init;")
+	if g.failAt == "init" {
+		return errors.New(common.BodyHookErr)
+	}
+	return nil
+}
+func (g *bodyGen) GenerateType(c *generator.Context, t *types.Type, w io.Writer) error {
+	g.n++
+	name := "type" + common.Itoa(g.n)
+	w.Write([]byte(name + ";"))
+	if g.failAt == name {
+		return errors.New(common.BodyHookErr)
+	}
+	return nil
+}
+func (g *bodyGen) Finalize(c *generator.Context, w io.Writer) error {
+	io.WriteString(w, "fin;")
+	if g.failAt == "fin" {
+		return errors.New(common.BodyHookErr)
+	}
+	return nil
+}
 
 func mkNamers(names []string) namer.NameSystems {
 	ns := namer.NameSystems{}
@@ -36,7 +80,8 @@ var swType = &types.Type{Name: types.Name{Package: "k8s.io/api/core/v1", Name: "
 func snippetImpl() common.SnippetImpl {
 	return common.SnippetImpl{
 		NewSW: func(w io.Writer, left, right string, names []string) common.SWAPI {
-			return swV{generator.NewSnippetWriter(w, &generator.Context{Namers: mkNamers(names)}, left, right)}
+			c := &generator.Context{Namers: mkNamers(names)}
+			return swV{generator.NewSnippetWriter(w, c, left, right), c}
 		},
 		NamerFuncs: func(names []string) template.FuncMap {
 			fm := template.FuncMap{}
@@ -54,6 +99,13 @@ func snippetImpl() common.SnippetImpl {
 		},
 		ArgsWithArgs: func(a, b map[interface{}]interface{}) map[interface{}]interface{} {
 			return generator.Args(a).WithArgs(generator.Args(b))
+		},
+		ExecuteBody: func(w io.Writer, k int, failAt string) error {
+			c := &generator.Context{Namers: namer.NameSystems{}}
+			for i := 0; i < k; i++ {
+				c.Order = append(c.Order, &types.Type{Name: types.Name{Package: "p", Name: "T" + common.Itoa(i)}, Kind: types.Struct})
+			}
+			return c.ExecuteBodyForVerif(w, &bodyGen{failAt: failAt})
 		},
 	}
 }
